@@ -241,7 +241,15 @@ def splice(take, mode, mutant=None):
         if mode == "canary" and "exec const" in text.split("\n")[0]:
             pass
         elif mode == "canary":
-            if has_exit:
+            if re.search(r"ensures\s+false", contract):
+                # a function that never returns: every process-exit site must be reachable under the contracts
+                k = [0]
+                def site(m):
+                    k[0] += 1
+                    return f"exit({{ assert(false); // [canary-exitsite:{take.key}.{k[0]}]\n &mut *world }},"
+                text = re.sub(r"\bexit\(world\s*,", site, text)
+                text = text.replace("__verif_exit !();", "")
+            elif has_exit:
                 text = text.replace("__verif_exit !();", f"assert(false); // [canary-exit:{take.key}]", 1)
                 used.add("exit")
             else:
@@ -584,7 +592,7 @@ def verify_unit(unit_path, mode="normal", mutant=None, tier="quick", keep=True, 
     gpath = os.path.join(BUILD, unit["name"] + suffix + ".rs")
     with open(gpath, "w") as f:
         f.write("\n".join(gen_lines) + "\n")
-    res = run_verus(gpath, rlimit=(rlimit or (3 if mode == "canary" else None)), seed=seed, multiple_errors=(12 if mode == "canary" else None))
+    res = run_verus(gpath, rlimit=(rlimit or (3 if mode == "canary" else None)), seed=seed, multiple_errors=(12 if mode == "canary" else 6))
     failures, tool, rl = classify(res, gen_lines, linemap)
     if rl and mode == "normal" and mutant is None and not failures and not tool:
         # retry once with 4x rlimit and another seed (DESIGN §2.4)
@@ -811,9 +819,20 @@ def decide(prop, tier, seed):
             reasons.append(f"{os.path.basename(p)}: no canaries generated")
     findings, fixed = load_known()
     violations, known_hits = [], []
+    # units are shared between properties: `select` / `exclude` (regexes over unit/function/label) say which obligations
+    # state THIS property. A failure outside the selection is not this property's violation, but everything proved after
+    # it in the same run was proved assuming it, so the run is UNDECIDED (exit 2), never OK and never an alarm.
+    sel = [re.compile(x) for x in pinfo.get("select", [])]
+    exc = [re.compile(x) for x in pinfo.get("exclude", [])]
+    ign = [re.compile(x) for x in pinfo.get("ignore", [])]   # functions of a shared unit outside this property's call tree
     for r in results:
         for f in r["failures"]:
             oid = obligation_id(r["unit"]["name"], f)
+            if any(x.search(oid) for x in ign):
+                continue
+            if (sel and not any(x.search(oid) for x in sel)) or any(x.search(oid) for x in exc):
+                reasons.append(f"obligation of another property fails in a shared unit: {oid} (this property's clauses are then only proved relative to it)")
+                continue
             k = [x for x in findings if x.get("property") == prop and x.get("obligation") == oid]
             if k:
                 known_hits.append((k[0], f, r))
